@@ -1,6 +1,898 @@
-//! C08: implementation-side case runners (see props/c08.py). Stub until the property is built.
+//! C08: undo / redo over edit histories on the real `EditState` (see props/c08.py, notes/C08.md).
+//!
+//! Case text:  `<kind> <doc spec tokens> | <op> ; <op> ; …`
+//!
+//! doc spec   `B w h ice palmode fontmode sauce`            buffer (sauce: 0 none, 1 matching size, 2 other size)
+//!            `L w h ox oy flags mode fill seed`            one per layer, bottom first (flags: 1 visible 2 locked
+//!                                                          4 position-locked 8 alpha-locked 16 has-alpha)
+//!                 fill 0 no lines, 1 Layer::new rows, 2 random cells, 3 ragged rows, 4 random cells + content beyond size
+//!            `X w h ox oy flags mode nrows (len cell*)*`   layer with explicit raw rows (cells in the 57-bit code below)
+//!            `P cur mirror cx cy`                          current layer, mirror mode, caret
+//! ops        see `apply`; `U` / `R` are undo / redo (only for c08trace); `caret x y`, `cur i`, `mirror b` are controls.
+//!
+//! kinds      c08hist  <walk seed> …   the property's oracle on the real code (stage S). Output:
+//!                 `0 n_kept n_steps` or `code phase step n_min min-op-indices… detail-codes…`
+//!            c08trace …               stage C: after every step the raw document (see `raw_obs`)
+//!            c08flip                  the flip-x / flip-y character maps of the default font (probe through the public API)
 use crate::Obs;
+use icy_engine::editor::{EditState, UndoState};
+use icy_engine::{
+    AddType, AttributedChar, BitFont, Buffer, FontMode, IceMode, Layer, Line, Mode, PaletteMode, Position, Rectangle, SauceData, SauceString, Selection,
+    Size, TextAttribute, TextPane,
+};
+use std::collections::BTreeMap;
+use std::panic::{catch_unwind, AssertUnwindSafe};
 
-pub fn run(_kind: &str, _args: &[&str]) -> Option<Obs> {
+// ---------------------------------------------------------------------------------------------
+// cells
+
+fn enc_cell(c: AttributedChar) -> i64 {
+    (c.ch as i64)
+        | ((c.attribute.get_foreground() as i64 & 0xFF) << 21)
+        | ((c.attribute.get_background() as i64 & 0xFF) << 29)
+        | ((c.attribute.get_font_page() as i64 & 0xF) << 37)
+        | ((c.attribute.attr as i64) << 41)
+}
+
+fn dec_cell(v: i64) -> AttributedChar {
+    let ch = char::from_u32((v & 0x1F_FFFF) as u32).unwrap_or('?');
+    let mut a = TextAttribute::new(((v >> 21) & 0xFF) as u32, ((v >> 29) & 0xFF) as u32);
+    a.set_font_page(((v >> 37) & 0xF) as usize);
+    a.attr = ((v >> 41) & 0xFFFF) as u16;
+    AttributedChar::new(ch, a)
+}
+
+fn mk_cell(ch: u32, fg: u32, bg: u32, attr: u16, fp: usize) -> AttributedChar {
+    let mut a = TextAttribute::new(fg, bg);
+    a.attr = attr;
+    a.set_font_page(fp);
+    AttributedChar::new(char::from_u32(ch).unwrap_or('?'), a)
+}
+
+struct Lcg(u64);
+impl Lcg {
+    fn next(&mut self) -> u64 {
+        self.0 = self.0.wrapping_mul(6364136223846793005).wrapping_add(1442695040888963407);
+        (self.0 >> 33) as u64
+    }
+    fn below(&mut self, n: u64) -> u64 {
+        self.next() % n
+    }
+}
+
+const CHARS: &[u32] = &[65, 66, 67, 68, 77, 81, 88, 90, 112, 113, 47, 92, 32, 32, 0, 219, 220, 223, 221, 222, 179, 196, 218, 191, 192, 217, 48, 57];
+
+fn rand_cell(r: &mut Lcg) -> AttributedChar {
+    let k = r.below(10);
+    if k < 4 {
+        return AttributedChar::invisible();
+    }
+    let ch = CHARS[r.below(CHARS.len() as u64) as usize];
+    let fg = r.below(16) as u32;
+    let bg = if r.below(4) == 0 { 0 } else { r.below(8) as u32 };
+    let attr = if r.below(5) == 0 { 1 } else { 0 };
+    mk_cell(ch, fg, bg, attr, 0)
+}
+
+// ---------------------------------------------------------------------------------------------
+// documents
+#[derive(Clone, Debug)]
+struct LayerSpec {
+    w: i32,
+    h: i32,
+    ox: i32,
+    oy: i32,
+    flags: i64,
+    mode: i64,
+    fill: i64,
+    seed: u64,
+    rows: Vec<Vec<i64>>,
+}
+
+#[derive(Clone, Debug, Default)]
+struct DocSpec {
+    w: i32,
+    h: i32,
+    ice: i64,
+    pm: i64,
+    fm: i64,
+    sauce: i64,
+    layers: Vec<LayerSpec>,
+    cur: usize,
+    mirror: bool,
+    caret: (i32, i32),
+}
+
+#[derive(Clone, Debug)]
+struct Op {
+    name: String,
+    a: Vec<i64>,
+}
+
+fn parse(args: &[&str]) -> Result<(DocSpec, Vec<Op>), String> {
+    let mut d = DocSpec { w: 80, h: 25, ice: 0, pm: 1, fm: 0, ..Default::default() };
+    let mut i = 0;
+    let int = |s: &str| -> Result<i64, String> { s.parse::<i64>().map_err(|_| format!("bad-int:{s}")) };
+    while i < args.len() && args[i] != "|" {
+        match args[i] {
+            "B" => {
+                d.w = int(args[i + 1])? as i32;
+                d.h = int(args[i + 2])? as i32;
+                d.ice = int(args[i + 3])?;
+                d.pm = int(args[i + 4])?;
+                d.fm = int(args[i + 5])?;
+                d.sauce = int(args[i + 6])?;
+                i += 7;
+            }
+            "L" => {
+                d.layers.push(LayerSpec {
+                    w: int(args[i + 1])? as i32,
+                    h: int(args[i + 2])? as i32,
+                    ox: int(args[i + 3])? as i32,
+                    oy: int(args[i + 4])? as i32,
+                    flags: int(args[i + 5])?,
+                    mode: int(args[i + 6])?,
+                    fill: int(args[i + 7])?,
+                    seed: int(args[i + 8])? as u64,
+                    rows: Vec::new(),
+                });
+                i += 9;
+            }
+            "X" => {
+                let mut l = LayerSpec {
+                    w: int(args[i + 1])? as i32,
+                    h: int(args[i + 2])? as i32,
+                    ox: int(args[i + 3])? as i32,
+                    oy: int(args[i + 4])? as i32,
+                    flags: int(args[i + 5])?,
+                    mode: int(args[i + 6])?,
+                    fill: 9,
+                    seed: 0,
+                    rows: Vec::new(),
+                };
+                let n = int(args[i + 7])? as usize;
+                i += 8;
+                for _ in 0..n {
+                    let len = int(args[i])? as usize;
+                    i += 1;
+                    let mut row = Vec::new();
+                    for _ in 0..len {
+                        row.push(int(args[i])?);
+                        i += 1;
+                    }
+                    l.rows.push(row);
+                }
+                d.layers.push(l);
+            }
+            "P" => {
+                d.cur = int(args[i + 1])? as usize;
+                d.mirror = int(args[i + 2])? != 0;
+                d.caret = (int(args[i + 3])? as i32, int(args[i + 4])? as i32);
+                i += 5;
+            }
+            t => return Err(format!("bad-doc-token:{t}")),
+        }
+    }
+    let mut ops = Vec::new();
+    if i < args.len() {
+        i += 1;
+        let mut cur: Option<Op> = None;
+        while i < args.len() {
+            if args[i] == ";" {
+                if let Some(o) = cur.take() {
+                    ops.push(o);
+                }
+            } else if let Some(o) = cur.as_mut() {
+                o.a.push(int(args[i])?);
+            } else {
+                cur = Some(Op { name: args[i].to_string(), a: Vec::new() });
+            }
+            i += 1;
+        }
+        if let Some(o) = cur.take() {
+            ops.push(o);
+        }
+    }
+    Ok((d, ops))
+}
+
+fn build_layer(k: usize, s: &LayerSpec) -> Layer {
+    let mut l = Layer::new(format!("L{k}"), (s.w.max(0), s.h.max(0)));
+    l.set_size((s.w, s.h));
+    l.set_offset((s.ox, s.oy));
+    l.properties.is_visible = s.flags & 1 != 0;
+    l.properties.is_locked = s.flags & 2 != 0;
+    l.properties.is_position_locked = s.flags & 4 != 0;
+    l.properties.is_alpha_channel_locked = s.flags & 8 != 0;
+    l.properties.has_alpha_channel = s.flags & 16 != 0;
+    l.properties.mode = match s.mode {
+        1 => Mode::Chars,
+        2 => Mode::Attributes,
+        _ => Mode::Normal,
+    };
+    let mut r = Lcg(s.seed.wrapping_mul(2654435761).wrapping_add(k as u64 + 17));
+    match s.fill {
+        0 => l.lines.clear(),
+        1 => {}
+        2 | 4 => {
+            let (ew, eh) = if s.fill == 4 { (s.w + 2, s.h + 1) } else { (s.w, s.h) };
+            l.lines.clear();
+            for _ in 0..eh.max(0) {
+                let mut line = Line::new();
+                for _ in 0..ew.max(0) {
+                    line.chars.push(rand_cell(&mut r));
+                }
+                l.lines.push(line);
+            }
+        }
+        3 => {
+            l.lines.clear();
+            let rows = r.below(s.h.max(0) as u64 + 1);
+            for _ in 0..rows {
+                let mut line = Line::new();
+                let len = r.below(s.w.max(0) as u64 + 1);
+                for _ in 0..len {
+                    line.chars.push(rand_cell(&mut r));
+                }
+                l.lines.push(line);
+            }
+        }
+        _ => {
+            l.lines.clear();
+            for row in &s.rows {
+                let mut line = Line::new();
+                for c in row {
+                    line.chars.push(dec_cell(*c));
+                }
+                l.lines.push(line);
+            }
+        }
+    }
+    l
+}
+
+fn build(d: &DocSpec) -> EditState {
+    let mut buf = Buffer::new((d.w, d.h));
+    buf.ice_mode = match d.ice {
+        1 => IceMode::Blink,
+        2 => IceMode::Ice,
+        _ => IceMode::Unlimited,
+    };
+    buf.palette_mode = match d.pm {
+        0 => PaletteMode::RGB,
+        2 => PaletteMode::Free8,
+        3 => PaletteMode::Free16,
+        _ => PaletteMode::Fixed16,
+    };
+    buf.font_mode = match d.fm {
+        1 => FontMode::Single,
+        2 => FontMode::FixedSize,
+        3 => FontMode::Unlimited,
+        _ => FontMode::Sauce,
+    };
+    if !d.layers.is_empty() {
+        buf.layers.clear();
+        for (k, s) in d.layers.iter().enumerate() {
+            buf.layers.push(build_layer(k, s));
+        }
+    }
+    if d.sauce != 0 {
+        let mut s = SauceData::default();
+        s.title = SauceString::from("title");
+        s.author = SauceString::from("author");
+        s.group = SauceString::from("group");
+        s.comments.push(SauceString::from("a comment"));
+        s.buffer_size = if d.sauce == 1 { Size::new(d.w, d.h) } else { Size::new(d.w + 3, d.h + 1) };
+        s.use_ice = d.ice == 2;
+        // set_sauce(.., false): store as is
+        buf.set_sauce(Some(s), false);
+    }
+    let mut st = EditState::from_buffer(buf);
+    st.set_current_layer(d.cur);
+    st.set_mirror_mode(d.mirror);
+    st.get_caret_mut().set_position(Position::new(d.caret.0, d.caret.1));
+    st
+}
+
+// ---------------------------------------------------------------------------------------------
+// operations
+fn clipboard(x: i32, y: i32, w: u32, h: u32, seed: u64) -> Vec<u8> {
+    let mut data = vec![0u8];
+    data.extend(i32::to_le_bytes(x));
+    data.extend(i32::to_le_bytes(y));
+    data.extend(u32::to_le_bytes(w));
+    data.extend(u32::to_le_bytes(h));
+    let mut r = Lcg(seed ^ 0x9E3779B97F4A7C15);
+    for _ in 0..(w * h) {
+        let c = rand_cell(&mut r);
+        data.extend(u16::to_le_bytes(c.ch as u16));
+        data.extend(u16::to_le_bytes(c.attribute.attr));
+        data.extend(u16::to_le_bytes(c.attribute.get_font_page() as u16));
+        data.extend(u32::to_le_bytes(c.attribute.get_background()));
+        data.extend(u32::to_le_bytes(c.attribute.get_foreground()));
+    }
+    data
+}
+
+/// true for the tokens that only set a parameter of later operations (not an edit, never on the undo stack)
+fn is_control(name: &str) -> bool {
+    matches!(name, "caret" | "cur" | "mirror")
+}
+
+fn apply(st: &mut EditState, op: &Op) -> Result<(), String> {
+    let a = |i: usize| -> i64 { op.a.get(i).copied().unwrap_or(0) };
+    let ai = |i: usize| -> i32 { a(i) as i32 };
+    let au = |i: usize| -> usize { a(i).max(0) as usize };
+    let r = match op.name.as_str() {
+        "caret" => {
+            st.get_caret_mut().set_position(Position::new(ai(0), ai(1)));
+            Ok(())
+        }
+        "cur" => {
+            st.set_current_layer(au(0));
+            Ok(())
+        }
+        "mirror" => {
+            st.set_mirror_mode(a(0) != 0);
+            Ok(())
+        }
+        "setc" => st.set_char((ai(0), ai(1)), mk_cell(a(2) as u32, a(3) as u32, a(4) as u32, a(5) as u16, au(6))),
+        "swap" => st.swap_char((ai(0), ai(1)), (ai(2), ai(3))),
+        "addl" => st.add_new_layer(au(0)),
+        "reml" => st.remove_layer(au(0)),
+        "raise" => st.raise_layer(au(0)),
+        "lower" => st.lower_layer(au(0)),
+        "dup" => st.duplicate_layer(au(0)),
+        "clearl" => st.clear_layer(au(0)),
+        "merge" => st.merge_layer_down(au(0)),
+        "togvis" => st.toggle_layer_visibility(au(0)),
+        "movel" => st.move_layer(Position::new(ai(0), ai(1))),
+        "lsize" => st.set_layer_size(au(0), (ai(1), ai(2))),
+        "resize" => st.resize_buffer(a(0) != 0, (ai(1), ai(2))),
+        "crop" => st.crop(),
+        "croprect" => st.crop_rect(Rectangle::from(ai(0), ai(1), ai(2), ai(3))),
+        "sel" => {
+            let mut s = Selection::from((ai(0), ai(1), ai(2), ai(3)));
+            s.add_type = match a(4) {
+                1 => AddType::Add,
+                2 => AddType::Subtract,
+                _ => AddType::Default,
+            };
+            st.set_selection(s)
+        }
+        "clrsel" => st.clear_selection(),
+        "desel" => st.deselect(),
+        "addmask" => st.add_selection_to_mask(),
+        "inverse" => st.inverse_selection(),
+        "erase" => st.erase_selection(),
+        "flipx" => st.flip_x(),
+        "flipy" => st.flip_y(),
+        "jleft" => st.justify_left(),
+        "jright" => st.justify_right(),
+        "center" => st.center(),
+        "insrow" => st.insert_row(),
+        "delrow" => st.delete_row(),
+        "inscol" => st.insert_column(),
+        "delcol" => st.delete_column(),
+        "scrup" => st.scroll_area_up(),
+        "scrdown" => st.scroll_area_down(),
+        "scrleft" => st.scroll_area_left(),
+        "scrright" => st.scroll_area_right(),
+        "rotate" => st.rotate_layer(),
+        "transp" => st.make_layer_transparent(),
+        "stampdown" => st.stamp_layer_down(),
+        "paste" => st.paste_clipboard_data(&clipboard(ai(0), ai(1), a(2).max(0) as u32, a(3).max(0) as u32, a(4) as u64)),
+        "anchor" => st.anchor_layer(),
+        "addfloat" => st.add_floating_layer(),
+        "ice" => st.set_ice_mode(match a(0) {
+            1 => IceMode::Blink,
+            2 => IceMode::Ice,
+            _ => IceMode::Unlimited,
+        }),
+        "palmode" => st.set_palette_mode(match a(0) {
+            0 => PaletteMode::RGB,
+            2 => PaletteMode::Free8,
+            3 => PaletteMode::Free16,
+            _ => PaletteMode::Fixed16,
+        }),
+        "fontpage" => st.switch_to_font_page(au(0)),
+        "setfont" => st.set_ansi_font(au(0)),
+        "addfont" => st.add_ansi_font(au(0)),
+        "saucefont" => st.set_sauce_font(if a(0) == 0 { "IBM VGA" } else { "IBM VGA50" }),
+        "remfont" => st.remove_font(au(0)),
+        "fontslot" => st.change_font_slot(au(0), au(1)),
+        "replfont" => st.replace_font_usage(au(0), au(1)),
+        "centerline" => st.center_line(),
+        "jlineleft" => st.justify_line_left(),
+        "jlineright" => st.justify_line_right(),
+        "eraserow" => st.erase_row(),
+        "eraserow_s" => st.erase_row_to_start(),
+        "eraserow_e" => st.erase_row_to_end(),
+        "erasecol" => st.erase_column(),
+        "erasecol_s" => st.erase_column_to_start(),
+        "erasecol_e" => st.erase_column_to_end(),
+        n => return Err(format!("unknown-op:{n}")),
+    };
+    r.map_err(|e| format!("{e}"))
+}
+
+/// run one operation, catching panics: 0 ok, 1 Err, 2 panic
+fn apply_caught(st: &mut EditState, op: &Op) -> i64 {
+    match catch_unwind(AssertUnwindSafe(|| apply(st, op))) {
+        Ok(Ok(())) => 0,
+        Ok(Err(_)) => 1,
+        Err(_) => 2,
+    }
+}
+
+// ---------------------------------------------------------------------------------------------
+// the observation the property prescribes
+#[derive(Clone, PartialEq, Debug)]
+struct LayerSnap {
+    meta: Vec<i64>, // role transparency visible locked poslocked alphalocked hasalpha mode color default_font_page
+    title: String,
+    size: (i32, i32),
+    offset: (i32, i32),
+    cells: Vec<i64>, // get_char at every position of size, invisible cells as -1
+}
+
+#[derive(Clone, PartialEq, Debug)]
+struct Snap {
+    size: (i32, i32),
+    modes: Vec<i64>,
+    palette: Vec<(u8, u8, u8)>,
+    fonts: Vec<(usize, u64)>,
+    sauce: String,
+    layers: Vec<LayerSnap>,
+}
+
+fn fnv(h: &mut u64, b: &[u8]) {
+    for x in b {
+        *h ^= *x as u64;
+        *h = h.wrapping_mul(0x100000001b3);
+    }
+}
+
+fn font_hash(f: &BitFont) -> u64 {
+    let mut h = 0xcbf29ce484222325u64;
+    fnv(&mut h, f.name.as_bytes());
+    fnv(&mut h, &f.size.width.to_le_bytes());
+    fnv(&mut h, &f.size.height.to_le_bytes());
+    let g: BTreeMap<u32, &Vec<u8>> = f.glyphs.iter().map(|(c, g)| (*c as u32, &g.data)).collect();
+    for (c, d) in g {
+        fnv(&mut h, &c.to_le_bytes());
+        fnv(&mut h, d);
+    }
+    h
+}
+
+fn snapshot(st: &EditState) -> Snap {
+    let b = st.get_buffer();
+    let mut layers = Vec::new();
+    for l in &b.layers {
+        let p = &l.properties;
+        let color = match &p.color {
+            None => -1,
+            Some(c) => {
+                let (r, g, bb) = c.get_rgb();
+                ((r as i64) << 16) | ((g as i64) << 8) | bb as i64
+            }
+        };
+        let meta = vec![
+            l.role as i64,
+            l.transparency as i64,
+            p.is_visible as i64,
+            p.is_locked as i64,
+            p.is_position_locked as i64,
+            p.is_alpha_channel_locked as i64,
+            p.has_alpha_channel as i64,
+            p.mode as i64,
+            color,
+            l.default_font_page as i64,
+        ];
+        let (w, h) = (l.get_width(), l.get_height());
+        let mut cells = Vec::new();
+        if w > 0 && h > 0 && (w as i64) * (h as i64) <= 1_000_000 {
+            for y in 0..h {
+                for x in 0..w {
+                    let c = l.get_char((x, y));
+                    cells.push(if c.is_visible() { enc_cell(c) } else { -1 });
+                }
+            }
+        }
+        layers.push(LayerSnap { meta, title: p.title.clone(), size: (w, h), offset: (l.get_offset().x, l.get_offset().y), cells });
+    }
+    let mut fonts: Vec<(usize, u64)> = b.font_iter().map(|(k, f)| (*k, font_hash(f))).collect();
+    fonts.sort();
+    let sauce = match b.get_sauce() {
+        None => String::new(),
+        Some(s) => format!(
+            "{}|{}|{}|{:?}|{:?}|{}x{}|{:?}|{}|{}|{}|{:?}",
+            s.title,
+            s.author,
+            s.group,
+            s.comments.iter().map(|c| c.to_string()).collect::<Vec<_>>(),
+            s.data_type.clone() as u8,
+            s.buffer_size.width,
+            s.buffer_size.height,
+            s.font_opt,
+            s.use_ice,
+            s.use_letter_spacing,
+            s.use_aspect_ratio,
+            s.sauce_file_type
+        ),
+    };
+    Snap {
+        size: (b.get_width(), b.get_height()),
+        modes: vec![b.ice_mode as i64, b.palette_mode as i64, b.font_mode as i64, b.buffer_type as i64],
+        palette: b.palette.color_iter().map(|c| c.get_rgb()).collect(),
+        fonts,
+        sauce,
+        layers,
+    }
+}
+
+/// first difference as a small vector: [category, layer, a, b]
+/// category 1 buffer size, 2 modes, 3 palette, 4 fonts, 5 sauce, 6 layer count, 7 layer properties, 8 title, 9 layer size, 10 offset, 11 cell
+fn diff(a: &Snap, b: &Snap) -> Option<Vec<i64>> {
+    if a.size != b.size {
+        return Some(vec![1, -1, 0, 0]);
+    }
+    if a.modes != b.modes {
+        return Some(vec![2, -1, 0, 0]);
+    }
+    if a.palette != b.palette {
+        return Some(vec![3, -1, 0, 0]);
+    }
+    if a.fonts != b.fonts {
+        return Some(vec![4, -1, 0, 0]);
+    }
+    if a.sauce != b.sauce {
+        return Some(vec![5, -1, 0, 0]);
+    }
+    if a.layers.len() != b.layers.len() {
+        return Some(vec![6, -1, a.layers.len() as i64, b.layers.len() as i64]);
+    }
+    for (k, (x, y)) in a.layers.iter().zip(b.layers.iter()).enumerate() {
+        let k = k as i64;
+        if x.meta != y.meta {
+            return Some(vec![7, k, 0, 0]);
+        }
+        if x.title != y.title {
+            return Some(vec![8, k, 0, 0]);
+        }
+        if x.size != y.size {
+            return Some(vec![9, k, 0, 0]);
+        }
+        if x.offset != y.offset {
+            return Some(vec![10, k, 0, 0]);
+        }
+        if x.cells != y.cells {
+            let i = x.cells.iter().zip(y.cells.iter()).position(|(p, q)| p != q).unwrap_or(0) as i64;
+            let w = x.size.0.max(1) as i64;
+            return Some(vec![11, k, i % w, i / w]);
+        }
+    }
     None
+}
+
+// ---------------------------------------------------------------------------------------------
+// the oracle
+#[derive(Debug, Clone, PartialEq)]
+struct Failure {
+    code: i64,  // 1 undo Err, 2 undo panic, 3 undo mismatch, 4 redo Err, 5 redo panic, 6 redo mismatch, 7 stack length wrong,
+    // 8 redo history survives a new edit, 9 edit changed the document without an undo record, 10 walk mismatch, 11 walk Err/panic
+    step: i64,
+    detail: Vec<i64>,
+}
+
+struct RunInfo {
+    kept: Vec<usize>,
+    steps: usize,
+}
+
+fn undo_caught(st: &mut EditState) -> i64 {
+    match catch_unwind(AssertUnwindSafe(|| st.undo())) {
+        Ok(Ok(())) => 0,
+        Ok(Err(_)) => 1,
+        Err(_) => 2,
+    }
+}
+fn redo_caught(st: &mut EditState) -> i64 {
+    match catch_unwind(AssertUnwindSafe(|| st.redo())) {
+        Ok(Ok(())) => 0,
+        Ok(Err(_)) => 1,
+        Err(_) => 2,
+    }
+}
+
+/// Runs the operations (dropping, with a restart from the initial document, every one that does not report Ok) and
+/// then checks the property. `Ok(info)` when it holds.
+fn check_history(d: &DocSpec, ops: &[Op], active: &[usize], walk_seed: u64) -> Result<RunInfo, (Failure, Vec<usize>)> {
+    let mut kept: Vec<usize> = active.to_vec();
+    'restart: loop {
+        let mut st = build(d);
+        let s0 = snapshot(&st);
+        let len0 = st.undo_stack_len();
+        let mut at_len: BTreeMap<usize, Option<Snap>> = BTreeMap::new();
+        at_len.insert(len0, Some(s0.clone()));
+        let mut prev = s0.clone();
+        let mut prev_len = len0;
+        for (pos, &i) in kept.iter().enumerate() {
+            let rc = apply_caught(&mut st, &ops[i]);
+            if rc != 0 {
+                kept.remove(pos);
+                continue 'restart;
+            }
+            let len = st.undo_stack_len();
+            let sn = snapshot(&st);
+            if len < prev_len {
+                return Err((Failure { code: 7, step: i as i64, detail: vec![prev_len as i64, len as i64] }, kept));
+            }
+            if len == prev_len {
+                if let Some(df) = diff(&prev, &sn) {
+                    return Err((Failure { code: 9, step: i as i64, detail: df }, kept));
+                }
+            }
+            for l in prev_len + 1..len {
+                at_len.insert(l, None);
+            }
+            at_len.insert(len, Some(sn.clone()));
+            prev = sn;
+            prev_len = len;
+        }
+        let n = prev_len - len0;
+        let sf = prev.clone();
+        // undo everything the history added
+        for k in 1..=n {
+            let rc = undo_caught(&mut st);
+            if rc != 0 {
+                return Err((Failure { code: rc, step: k as i64, detail: vec![] }, kept));
+            }
+            let len = st.undo_stack_len();
+            if len != prev_len - k {
+                return Err((Failure { code: 7, step: k as i64, detail: vec![(prev_len - k) as i64, len as i64] }, kept));
+            }
+            if let Some(Some(want)) = at_len.get(&len) {
+                if let Some(df) = diff(want, &snapshot(&st)) {
+                    return Err((Failure { code: 3, step: k as i64, detail: df }, kept));
+                }
+            }
+        }
+        // redo everything
+        for k in 1..=n {
+            let rc = redo_caught(&mut st);
+            if rc != 0 {
+                return Err((Failure { code: 3 + rc, step: k as i64, detail: vec![] }, kept));
+            }
+            let len = st.undo_stack_len();
+            if len != len0 + k {
+                return Err((Failure { code: 7, step: k as i64, detail: vec![(len0 + k) as i64, len as i64] }, kept));
+            }
+            if let Some(Some(want)) = at_len.get(&len) {
+                if let Some(df) = diff(want, &snapshot(&st)) {
+                    return Err((Failure { code: 6, step: k as i64, detail: df }, kept));
+                }
+            }
+        }
+        if let Some(df) = diff(&sf, &snapshot(&st)) {
+            return Err((Failure { code: 6, step: n as i64, detail: df }, kept));
+        }
+        // a walk over undo / redo (with the no-op steps at both ends)
+        let mut r = Lcg(walk_seed.wrapping_mul(0x9E3779B97F4A7C15).wrapping_add(n as u64));
+        let mut pos = n;
+        let mut steps = 2 * n;
+        let walk_len = if n == 0 { 2 } else { 2 * n + 6 };
+        for w in 0..walk_len {
+            let down = if pos == n && r.below(4) != 0 {
+                true
+            } else if pos == 0 && r.below(4) != 0 {
+                false
+            } else {
+                r.below(2) == 0
+            };
+            let rc = if down { undo_caught(&mut st) } else { redo_caught(&mut st) };
+            steps += 1;
+            if rc != 0 {
+                return Err((Failure { code: 11, step: w as i64, detail: vec![rc, down as i64] }, kept));
+            }
+            if down {
+                pos = pos.saturating_sub(1);
+            } else if pos < n {
+                pos += 1;
+            }
+            let len = st.undo_stack_len();
+            if len != len0 + pos {
+                return Err((Failure { code: 7, step: w as i64, detail: vec![(len0 + pos) as i64, len as i64] }, kept));
+            }
+            if let Some(Some(want)) = at_len.get(&len) {
+                if let Some(df) = diff(want, &snapshot(&st)) {
+                    return Err((Failure { code: 10, step: w as i64, detail: df }, kept));
+                }
+            }
+        }
+        // a new edit after an undo discards the redo history
+        if n > 0 {
+            while st.undo_stack_len() > len0 + (walk_seed as usize % n) {
+                if undo_caught(&mut st) != 0 {
+                    return Err((Failure { code: 11, step: -1, detail: vec![] }, kept));
+                }
+            }
+            if st.can_redo() {
+                let sz = st.get_buffer().get_size();
+                let cands = [
+                    Op { name: "setc".into(), a: vec![0, 0, 35, 7, 0, 0, 0] },
+                    Op { name: "togvis".into(), a: vec![0] },
+                    Op { name: "resize".into(), a: vec![0, sz.width as i64 + 1, sz.height as i64] },
+                ];
+                for c in &cands {
+                    let before = st.undo_stack_len();
+                    if apply_caught(&mut st, c) == 0 && st.undo_stack_len() > before {
+                        let sn = snapshot(&st);
+                        let can = st.can_redo();
+                        let rc = redo_caught(&mut st);
+                        if can || rc != 0 || diff(&sn, &snapshot(&st)).is_some() || st.undo_stack_len() != before + 1 {
+                            return Err((Failure { code: 8, step: 0, detail: vec![can as i64, rc] }, kept));
+                        }
+                        break;
+                    }
+                }
+            }
+        }
+        return Ok(RunInfo { kept, steps });
+    }
+}
+
+fn same_class(a: &Failure, b: &Failure) -> bool {
+    let cat = |f: &Failure| f.detail.first().copied().unwrap_or(0);
+    a.code == b.code && (!(matches!(a.code, 3 | 6 | 9 | 10)) || cat(a) == cat(b))
+}
+
+fn hist(args: &[&str]) -> Obs {
+    let walk_seed: u64 = args[0].parse().map_err(|_| "bad-seed".to_string())?;
+    let (d, ops) = parse(&args[1..])?;
+    let all: Vec<usize> = (0..ops.len()).collect();
+    match check_history(&d, &ops, &all, walk_seed) {
+        Ok(info) => Ok(vec![0, info.kept.len() as i64, info.steps as i64]),
+        Err((f, kept)) => {
+            // greedy minimisation: drop operations while the same class of failure persists
+            let mut cur = kept;
+            let mut curf = f;
+            let mut changed = true;
+            let mut budget = 400;
+            while changed && budget > 0 {
+                changed = false;
+                let mut k = cur.len();
+                while k > 0 && budget > 0 {
+                    k -= 1;
+                    let mut t = cur.clone();
+                    t.remove(k);
+                    budget -= 1;
+                    if let Err((f2, kept2)) = check_history(&d, &ops, &t, walk_seed) {
+                        if same_class(&curf, &f2) {
+                            cur = kept2;
+                            curf = f2;
+                            changed = true;
+                            k = k.min(cur.len());
+                        }
+                    }
+                }
+            }
+            let mut v = vec![curf.code, curf.step, cur.len() as i64];
+            v.extend(cur.iter().map(|x| *x as i64));
+            v.extend(curf.detail.iter());
+            Ok(v)
+        }
+    }
+}
+
+// ---------------------------------------------------------------------------------------------
+// stage C: raw trace
+fn title_code(t: &str) -> (i64, i64) {
+    // fluent wraps the placeable of "{ $name } copy" in the isolation marks U+2068 / U+2069
+    let plain: String = t.chars().filter(|c| *c != '\u{2068}' && *c != '\u{2069}').collect();
+    let mut s = plain.as_str();
+    let mut dups = 0;
+    while let Some(x) = s.strip_suffix(" copy") {
+        s = x;
+        dups += 1;
+    }
+    let base = match s {
+        "Background" => 0,
+        "Layer" => 1,
+        "Floating selection" => 2,
+        "new" => 3,
+        "" => 4,
+        _ => match s.strip_prefix('L').and_then(|x| x.parse::<i64>().ok()) {
+            Some(n) => 10 + n,
+            None => 9,
+        },
+    };
+    (base, dups)
+}
+
+/// status undo_len can_redo bufw bufh nlayers { role flags mode ox oy w h title_base title_dups nlines { len cells… } }
+fn raw_obs(st: &EditState, status: i64, out: &mut Vec<i64>) {
+    let b = st.get_buffer();
+    out.push(status);
+    out.push(st.undo_stack_len() as i64);
+    out.push(st.can_redo() as i64);
+    out.push(b.get_width() as i64);
+    out.push(b.get_height() as i64);
+    out.push(b.layers.len() as i64);
+    for l in &b.layers {
+        let p = &l.properties;
+        out.push(l.role as i64);
+        out.push(p.is_visible as i64 | (p.is_locked as i64) << 1 | (p.is_position_locked as i64) << 2 | (p.is_alpha_channel_locked as i64) << 3 | (p.has_alpha_channel as i64) << 4);
+        out.push(p.mode as i64);
+        out.push(l.get_offset().x as i64);
+        out.push(l.get_offset().y as i64);
+        out.push(l.get_width() as i64);
+        out.push(l.get_height() as i64);
+        let (tb, td) = title_code(&p.title);
+        out.push(tb);
+        out.push(td);
+        out.push(l.lines.len() as i64);
+        for line in &l.lines {
+            out.push(line.chars.len() as i64);
+            for c in &line.chars {
+                out.push(enc_cell(*c));
+            }
+        }
+    }
+}
+
+fn trace(args: &[&str]) -> Obs {
+    let (d, ops) = parse(args)?;
+    let mut st = build(&d);
+    let mut out = Vec::new();
+    raw_obs(&st, 0, &mut out);
+    for op in &ops {
+        let rc = match op.name.as_str() {
+            "U" => undo_caught(&mut st),
+            "R" => redo_caught(&mut st),
+            _ => apply_caught(&mut st, op),
+        };
+        if rc != 0 {
+            out.push(rc);
+            return Ok(out);
+        }
+        raw_obs(&st, 0, &mut out);
+    }
+    Ok(out)
+}
+
+/// flip maps of the default font, read back through flip_x / flip_y on a 256 x 2 layer holding every code
+fn flip_probe() -> Obs {
+    let mut out = Vec::new();
+    for vertical in [false, true] {
+        let mut st = EditState::from_buffer(Buffer::new((512, 2)));
+        for c in 0..256u32 {
+            let ch = AttributedChar::new(char::from_u32(c).unwrap(), TextAttribute::new(7, 1));
+            if vertical {
+                st.get_buffer_mut().layers[0].set_char((c as i32, 0), ch);
+            } else {
+                st.get_buffer_mut().layers[0].set_char((c as i32, 0), ch);
+            }
+        }
+        if vertical {
+            st.flip_y().map_err(|e| e.to_string())?;
+        } else {
+            st.flip_x().map_err(|e| e.to_string())?;
+        }
+        for c in 0..256i32 {
+            let pos = if vertical { (c, 1) } else { (511 - c, 0) };
+            out.push(st.get_buffer().layers[0].get_char(pos).ch as i64);
+        }
+    }
+    Ok(out)
+}
+
+pub fn run(kind: &str, args: &[&str]) -> Option<Obs> {
+    match kind {
+        "c08hist" => Some(hist(args)),
+        "c08trace" => Some(trace(args)),
+        "c08flip" => Some(flip_probe()),
+        _ => None,
+    }
 }
